@@ -64,7 +64,15 @@ class C01(Prop):
             return out if quick else list(range(1, 8)) + [[rng.randrange(1, 8) for _ in range(368)] for _ in range(3)]
 
         reps = 6 if quick else 120
-        for _ in range(reps):
+        for rep in range(reps):
+            # --- a valid data-only stream LSF (TYPE 0x0003) from whatever mode the previous round ended in (BERT, and a packet mode below):
+            # lsf_roundtrip holds for every decoder state; update_state() keeps LSF mode for it, so the next stream frame is a LICH fragment
+            if rep:
+                lsf3 = g.rand_lsf(0x0003)
+                add(0, S.soft(S.lsf_frame_bits(lsf3), 7), {"kind": "lsf_dataonly", "calls": [(0, list(lsf3))], "result": 1, "cost": 0, "mode": 0})
+                n = rng.randrange(6)
+                sb = S.stream_frame_bits(lsf3, n, 0, bytes(rng.randrange(256) for _ in range(16)))
+                add(1, S.soft(sb, 7), {"kind": "lich", "calls": [(1, list(lsf3[5 * n:5 * n + 5]) + [n << 5])], "result": 3, "cost": "max", "mode": 0})
             # --- LSF (valid CRC, each TYPE class) then stream frames in STREAM mode, then LICH collection in LSF mode
             for typ in (0x0005, 0x0007):
                 lsf = g.rand_lsf(typ)
@@ -137,6 +145,12 @@ class C01(Prop):
                     m = rng.choice(mags("pkt"))
                     cost = rdiv(sum(7 - x for x in (m if isinstance(m, list) else [m] * 368)), 7)
                     add(2, S.soft(S.packet_frame_bits(bits), m), {"kind": "packet", "calls": [(ftype, list(S.pack(bits)))], "result": 1 if eof else 4, "cost": cost, "mode": 0 if eof else ftype - 1})
+                # the same data-only LSF from inside a packet (mid-packet mode)
+                add(0, S.soft(S.lsf_frame_bits(g.rand_lsf(typ)), 7), None)
+                bits = [rng.randrange(2) for _ in range(206)]; bits[200] = 0
+                add(2, S.soft(S.packet_frame_bits(bits), 7), {"kind": "packet", "calls": [(ftype, list(S.pack(bits)))], "result": 4, "cost": 0, "mode": ftype - 1})
+                lsf3 = g.rand_lsf(0x0003)
+                add(0, S.soft(S.lsf_frame_bits(lsf3), 7), {"kind": "lsf_dataonly", "calls": [(0, list(lsf3))], "result": 1, "cost": 0, "mode": 0})
             # BERT
             for m in mags("bert")[:3]:
                 bits = [rng.randrange(2) for _ in range(197)]
